@@ -51,6 +51,11 @@ func gen(tier string, seed int64) []hx.Scenario {
 			}
 		}
 	}
+	// the long-term key is refreshed (same secret and public key, new sharing polynomial) between two signing sessions
+	for _, sh := range [][2]int{{3, 2}, {4, 3}} {
+		n, t := sh[0], sh[1]
+		out = append(out, hx.Scenario{Name: "dss-refresh", Cfg: fmt.Sprintf("n=%d t=%d", n, t), Run: func(x *hx.Ctx) { refreshCase(x, n, t) }})
+	}
 	// keys produced by a symbolic run of the real Pedersen DKG
 	shapes := [][2]int{{3, 2}, {4, 3}}
 	if tier == "thorough" {
@@ -61,6 +66,66 @@ func gen(tier string, seed int64) []hx.Scenario {
 		out = append(out, hx.Scenario{Name: "dss", Cfg: fmt.Sprintf("n=%d t=%d signers=%v keys=dkg", n, t, hx.Seq(n)), Run: func(x *hx.Ctx) { honest(x, n, t, hx.Seq(n), true) }})
 	}
 	return out
+}
+
+// refreshCase: a signing session on one sharing of the long-term key, then the key is refreshed - a NEW polynomial with
+// the same secret, hence the same public key - and a second session runs on the new shares in the same process: nothing
+// of the first session may leak into the second (partials of the new sharing verify, every combiner obtains the standard
+// signature, partials made from the OLD shares are refused).
+func refreshCase(x *hx.Ctx, n, t int) {
+	w := setup(x, n, t, false)
+	s := w.s
+	msg := []byte("dss message")
+	run := func(tag string) []byte {
+		var ds []*dss.DSS
+		var ps []*dss.PartialSig
+		for i := 0; i < n; i++ {
+			d := w.newDSS(x, i, msg)
+			p, err := d.PartialSig()
+			x.NoErr(tag+": PartialSig", err)
+			ds, ps = append(ds, d), append(ps, p)
+		}
+		var first []byte
+		for i := 0; i < n; i++ {
+			for j := 0; j < n; j++ {
+				if i != j {
+					x.NoErr(fmt.Sprintf("%s: partial of %d accepted by %d", tag, j, i), ds[i].ProcessPartialSig(ps[j]))
+				}
+			}
+			sig, err := ds[i].Signature()
+			if x.NoErr(fmt.Sprintf("%s: combiner %d", tag, i), err) {
+				x.NoErr(fmt.Sprintf("%s: signature of combiner %d verifies", tag, i), schnorr.Verify(s, w.long[0].Public(), msg, sig))
+				if first == nil {
+					first = sig
+				}
+				x.Require(fmt.Sprintf("%s: combiner %d derives the same signature", tag, i), bytes.Equal(sig, first))
+			}
+		}
+		return first
+	}
+	run("first sharing")
+	oldLong := w.long
+	oldPub := w.long[0].Public()
+	// refresh: same secret, fresh polynomial
+	np := share.NewPriPoly(s, uint32(t), w.longX, s.RandomStream())
+	_, commits := np.Commit(nil).Info()
+	var fresh []*dkg.DistKeyShare
+	for _, sh := range np.Shares(uint32(n)) {
+		fresh = append(fresh, &dkg.DistKeyShare{Commits: commits, Share: sh})
+	}
+	w.long = fresh
+	x.ValidP("the refreshed key has the same public key", w.long[0].Public(), oldPub)
+	w.rnd, _ = polyKeys(s, n, t)
+	run("refreshed sharing")
+	// a partial made from an OLD long-term share is refused in the refreshed session
+	if t > 1 {
+		comb := w.newDSS(x, 0, msg)
+		stale, err := dss.NewDSS(s, w.ps[1].priv, w.pubs, oldLong[1], w.rnd[1], msg, uint32(t))
+		x.NoErr("NewDSS on the old share", err)
+		sp, err := stale.PartialSig()
+		x.NoErr("PartialSig from the old share", err)
+		x.Err("partial made from a pre-refresh share is refused", comb.ProcessPartialSig(sp))
+	}
 }
 
 type party struct {
